@@ -5,7 +5,7 @@ from common import *
 from c07 import _merge
 from aeadcommon import parallel
 
-CONFIGS = ["stable", "nightly", "simd"]
+CONFIGS = ["stable", "nightly", "simd", "nightly-release"]
 
 
 def run(tier):
@@ -72,7 +72,7 @@ def run(tier):
     ck.cov["transcript_cases"] = len(base)
     ck.cov["operation_families"] = ops
     ck.cov["rule"] = ("transcripts (%d cases: every length 0..%d for generic hash x 4 digest/key pairs, incremental 3-piece chunkings, SHA-512, auth, signatures pure/pre-hashed; 400 kdf/kx/seeded key pairs/scalarmult/sealed-box/box cases; 24 Argon2 parameter sets) "
-                      "of the default, nightly and nightly+simd_backend builds must be identical line by line, and within a build every route/container (stack, Vec, heap, locked) must yield the same bytes; "
+                      "of the default, nightly, nightly+simd_backend and optimised nightly (--release) builds must be identical line by line, and within a build every route/container (stack, Vec, heap, locked) must yield the same bytes; "
                       "all 2-/3-way splits replayed under nightly and simd with the buffer fill compared to IncHash.tla" % (len(base), maxlen))
     ck.assumptions += ["conformance of each build to the specifications themselves is established by C07/C09/C12 (which replay their reference vectors under the nightly and simd builds)"]
     ck.cov["samples"] = base[:2] + ck.cov["samples"][:2]
